@@ -137,9 +137,10 @@ def parse_harnesses(unit):
         if m and m.group(1) in macro_ann:
             kv, d = macro_ann[m.group(1)]
             kv = dict(kv)
-            mt = re.search(r"//@tier=(\w+)", st)   # per-invocation tier override
-            if mt:
-                kv["tier"] = mt.group(1)
+            for key in ("tier", "solver", "timeout"):   # per-invocation overrides: `m!(name, …); //@tier=thorough`
+                mt = re.search(r"//@%s=(\w+)" % key, st)
+                if mt:
+                    kv[key] = mt.group(1)
             out.append(mk(kv, m.group(2), d))
             continue
         m = FN.match(line)
